@@ -32,24 +32,29 @@ MANIFEST = {
     "category": "other",
     "technique": "Coq refinement proof over a table-level model of the analyzer state + translator-regenerated table "
                  "lists + end-to-end differential oracle on the real veryl-ls (history vs fresh server)",
-    "text": "Theorem ls_refines_spec (all histories of open/change/save/close/rename/delete, induction): if every table "
-            "that re-analysis writes and a diagnostic can read is cleared by Analyzer::drop_file or drained by "
+    "text": "Theorem ls_refines_spec_all_histories (EVERY history of open/change/save/close/rename/delete, induction, no side "
+            "condition for a server that handles didClose and forgets removed buffers - both flags extracted from the source): "
+            "if every table that re-analysis writes and a diagnostic can read is cleared by Analyzer::drop_file or drained by "
             "analyze_post_pass1, the diagnostics published for a buffer are a function of the current texts alone; "
             "the dropped/written/drained lists are regenerated from analyzer.rs, handlers/*.rs, fragment_cache.rs and "
             "server.rs on every run and the inclusion is decided by vm_compute; stale_table_witness gives the 2-edit "
             "counter-history for a table outside the inclusion. The real server is driven over LSP with generated "
             "histories (syntax break/repair, rename/removal of cross-file declarations, duplicate definitions, type "
-            "cycles, doc comments, clock domains, close/reopen, rename/delete on disk, fragment cache on/off) and "
+            "cycles, doc comments, imports, clock domains, close/reopen with and without saving, rename chains/delete on disk, "
+            "a second didOpen in the middle of a background task, fragment cache on/off) and "
             "compared after quiescence with a fresh server on the same buffers: diagnostics, workspace symbols, "
             "references.",
     "note": "partial: the model abstracts tables to per-file fact lists and everything downstream of the tables to one "
             "function; which table can reach a diagnostic is a reviewed list (coq/Ls/TablesReview.v). Not modelled / "
-            "not explored: interleaving of notifications with a running background task (the driver waits for "
-            "quiescence), tower-lsp dispatch, dependencies/std library projects. Trusted: Coq kernel, the translator's "
+            "not explored: arbitrary interleavings of notifications with a running background task (only didOpen "
+            "during the task, shape bgopen; otherwise the driver waits for quiescence), tower-lsp dispatch, dependencies/std "
+            "library projects. Six defects were repaired (fix: commits), the remaining known classes are keyed in "
+            "KNOWN_FINDINGS.txt (stale scope tree names, duplicate-definition order, generic instances outliving their "
+            "template, file-graph WouldCycle panic). Trusted: Coq kernel, the translator's "
             "regexes, the python LSP driver and canonicalisation. No axioms.",
 }
 
-QUICK_N = 36
+QUICK_N = 28
 THOROUGH_N = 500
 WORKERS = 12
 TIMEOUT = 240.0
@@ -58,11 +63,60 @@ TIMEOUT = 240.0
 # --------------------------------------------------------------------------------------- judging
 
 def norm_panic(txt):
-    m = re.search(r"panicked at ([^\s:]+:\d+)", txt or "")
-    return m.group(1) if m else (txt or "")[:80]
+    """stable identity of a panic: source file + kind of failure (no line numbers, no ids)"""
+    txt = txt or ""
+    m = re.search(r"panicked at ([^\s:]+):\d+", txt)
+    site = os.path.basename(m.group(1)) if m else "?"
+    if "stack overflow" in txt:
+        return "stack-overflow"
+    if "WouldCycle" in txt:
+        kind = "WouldCycle"
+    elif "on a `None` value" in txt:
+        kind = "unwrap-none"
+    elif "on an `Err` value" in txt:
+        kind = "unwrap-err"
+    elif "assertion" in txt:
+        kind = "assert"
+    elif "overflow" in txt:
+        kind = "overflow"
+    elif not m:
+        kind = re.sub(r"\W+", "-", txt[:40])
+    else:
+        kind = "panic"
+    return "%s:%s" % (site, kind)
 
 
-def judge(res):
+def _names_only_variant(x, y):
+    """do two diagnostic lists differ only in the NAME an undefined_identifier at the same range reports?"""
+    def split(ds):
+        other = sorted(repr(d) for d in ds if d[5] != "undefined_identifier")
+        und = sorted(set(tuple(d[:5]) for d in ds if d[5] == "undefined_identifier"))
+        return other, und
+    return split(x or []) == split(y or [])
+
+
+def stale_scope_variant(a, b):
+    """known class `stale-scope:undefined-identifier-names`: every difference is of that kind"""
+    ok = False
+    for rnd in ("diags1", "diags2"):
+        for rel in set(a[rnd]) | set(b[rnd]):
+            x, y = a[rnd].get(rel), b[rnd].get(rel)
+            if x != y:
+                if not _names_only_variant(x, y):
+                    return False
+                ok = True
+    return ok and a.get("symbols") == b.get("symbols")
+
+
+def only_generic_instances(d):
+    """the only difference is a generic-instance symbol (mangled name `__Base__args`) left behind / missing"""
+    if len(d) != 1 or d[0][0] != "symbols":
+        return False
+    names = [re.match(r"\('([^']*)'", x) for x in d[0][2].get("only_history", []) + d[0][2].get("only_fresh", [])]
+    return bool(names) and all(m and m.group(1).startswith("__") for m in names)
+
+
+def judge(res, hist=None):
     """-> list of (key, what, detail) ; [] when the property holds on this case; None when inconclusive"""
     old, fresh = res["old"], res["fresh"]
     cold = res.get("cold")
@@ -71,17 +125,21 @@ def judge(res):
         return []          # nothing open at the end: nothing is published, a fresh server would not analyse anything
     if "timeout" in (old[0], fresh[0]) or (cold and cold[0] == "timeout"):
         return None
+    dup = bool(hist) and G.ever_duplicate(hist)
     # the fragment cache must not matter for a fresh server
     if cold is not None:
         if fresh[0] != cold[0] or (fresh[0] == "ok" and R.diff_obs(fresh[1], cold[1])) or \
                 (fresh[0] == "panic" and norm_panic(fresh[1]) != norm_panic(cold[1])):
             d = R.diff_obs(fresh[1], cold[1]) if fresh[0] == cold[0] == "ok" else [(fresh[0], cold[0], {})]
-            out.append(("ls-cache:" + classify(d, fresh, cold), "a fresh server with a warm cache-ls store and one with a cold "
-                        "store disagree on the same buffers", {"diff": d[:4], "warm": fresh[0], "cold": cold[0]}))
+            out.append(("ls-cache:" + classify(d), "a fresh server with a warm cache-ls store and one with a cold "
+                        "store disagree on the same buffers", {"diff": d[:4], "warm": fresh[0], "cold": cold[0],
+                                                               "warm_panic": fresh[1] if fresh[0] == "panic" else "",
+                                                               "cold_panic": cold[1] if cold[0] == "panic" else ""}))
     ref = cold if cold is not None else fresh      # the cold fresh server is the reference when there is one
     if old[0] == "panic" and ref[0] == "panic":
         if norm_panic(old[1]) != norm_panic(ref[1]):
-            out.append(("panic-differs", "both servers panic but at different places", {"history": old[1], "fresh": ref[1]}))
+            out.append(("panic-differs:%s/%s" % (norm_panic(old[1]), norm_panic(ref[1])),
+                        "both servers panic but at different places", {"history": old[1], "fresh": ref[1]}))
         return out
     if old[0] == "panic":
         out.append(("panic-after-history:" + norm_panic(old[1]), "the server that went through the history panics, a fresh "
@@ -93,16 +151,21 @@ def judge(res):
         return out
     d = R.diff_obs(old[1], ref[1])
     if d:
-        key = classify(d, old, ref)
-        if res.get("discarded"):
-            key = "close-discards-unsaved:" + key
+        if dup:
+            key = "duplicate-definition-order"
+        elif stale_scope_variant(old[1], ref[1]):
+            key = "stale-scope:undefined-identifier-names"
+        elif only_generic_instances(d):
+            key = "stale-generic-instance:symbols"
+        else:
+            key = classify(d)
         what = "after the history the server differs from a fresh server on the same buffers (%s %s): %s" % (
             d[0][0], d[0][1], json.dumps(d[0][2])[:400])
         out.append((key, what, {"diff": d[:6]}))
     return out
 
 
-def classify(d, a, b):
+def classify(d):
     """stable key for a difference: aspect + diagnostic codes involved + side"""
     if not d:
         return "none"
@@ -112,7 +175,7 @@ def classify(d, a, b):
         side = []
         for k in ("only_history", "only_fresh"):
             for s in det.get(k, []):
-                m = re.search(r"'(\w+)', '(?:Semantic|Syntax)", s) or re.search(r", '([a-z_]+)', '", s)
+                m = re.search(r", '([A-Za-z_:]+)', '(?:Semantic|Syntax)", s)
                 codes.add(m.group(1) if m else "?")
             if det.get(k):
                 side.append(k.replace("only_", ""))
@@ -129,11 +192,15 @@ def run_one(binary, hist, tag, probe_refs=True):
     wd = os.path.join(C.WORK, "scratch", "c07_%s_%d" % (tag, os.getpid()))
     try:
         res = R.run_case(binary, hist, wd, timeout=TIMEOUT, probe_refs=probe_refs, close_handled=CLOSE_HANDLED[0])
-        v = judge(res)
+        v = judge(res, hist)
         if v is None:
             # a timeout on a loaded machine: once more, alone
             res = R.run_case(binary, hist, wd, timeout=TIMEOUT * 2, probe_refs=probe_refs, close_handled=CLOSE_HANDLED[0])
-            v = judge(res)
+            v = judge(res, hist)
+            if v is None and res["old"][0] == "timeout" and res["fresh"][0] == "ok":
+                # the history server stops answering twice while a fresh one is fine: a liveness difference
+                v = [("hang-after-history", "the server that went through the history stops answering (%s); a fresh server "
+                      "on the same buffers answers" % res["old"][1], {"history": res["old"][1]})]
         return res, v
     finally:
         shutil.rmtree(wd, ignore_errors=True)
@@ -255,7 +322,7 @@ def run(tier, seed, replay):
     rng = random.Random(seed * 1000003 + 7)
     n = QUICK_N if tier == "quick" else THOROUGH_N
     cases = [(h.get("name", "corpus"), h) for h in corpus_histories()]
-    shapes = ["edit", "edit", "rename", "close", "cycle", "dup", "doc", "corpus", "break", "import"]
+    shapes = ["edit", "rename", "close", "cycle", "dup", "doc", "corpus", "break", "import", "bgopen", "edit", "rename"]
     for i in range(n):
         h = G.gen_history(rng, repo=C.REPO, shape=shapes[i % len(shapes)])
         cases.append(("gen%d" % i, h))
@@ -298,6 +365,12 @@ def run(tier, seed, replay):
             found.setdefault(k, []).append((name, h, w, det))
     res.coverage["evaluations"] = len(cases)
     res.coverage["distinct_nontrivial"] = len(distinct)
+    res.coverage["explanation"] = (
+        "category other: the theorem is about a table-level model (per-file fact lists, one downstream function); the tie is a "
+        "translator for the table lists / server shape plus the property's own differential oracle on the real veryl-ls. "
+        "Each evaluation = one history applied to a server over LSP/stdio, compared after quiescence with a fresh server "
+        "(and with a cold-cache fresh server when [build] incremental) on re-published diagnostics, workspace symbols, "
+        "definitions and references.")
     res.coverage["rule"] = ("generated LSP histories on 2-5 file projects; non-trivial = >=3 applied notifications and >=1 buffer open "
                             "at the end; distinct by serialised step list; each evaluated on a history server, a fresh server "
                             "(warm cache-ls) and, with [build] incremental, a fresh server with a cold store")
@@ -315,7 +388,7 @@ def run(tier, seed, replay):
         hmin = h
         try:
             hmin = ddmin_steps(binary, h, k, "s%d_%s" % (seed, re.sub(r"\W+", "_", k)[:30]),
-                               budget=30 if tier == "quick" else 80)
+                               budget=12 if tier == "quick" else 60)
         except Exception as e:  # shrinking must never hide the finding
             res.notes.append("ddmin failed: %r" % (e,))
         res.violation(k, w, {"history": hmin, "detail": det, "first_seen_in": name, "occurrences": len(found[k]),
